@@ -1,7 +1,7 @@
 (* Model/Run.v — runner entry points: [dispatch fn tokens] decodes a case, runs the model over CQ
    (Gaussian rationals) and encodes the result.  Malformed token streams give [-1]. *)
 From Coq Require Import List Bool ZArith NArith.
-From CC Require Import Theory.Field Theory.Complex Model.Network Model.Codec Model.Transformers Model.Circuit Model.RunCircuit Model.RunStateSpace Model.Format Model.RunLoaders Model.RunPort Model.Drawing Model.RunDrawing Model.Annotation Model.RunAnnotation.
+From CC Require Import Theory.Field Theory.Complex Model.Network Model.Codec Model.Transformers Model.Circuit Model.RunCircuit Model.RunStateSpace Model.Format Model.RunLoaders Model.RunPort Model.Drawing Model.RunDrawing Model.Annotation Model.RunAnnotation Model.RunSaveLoad.
 Import ListNotations.
 
 (* fn 1: full bias-point solution: potentials of node_labels (sorted), then v,i,p of every branch in
@@ -47,6 +47,7 @@ Definition dispatch (fn : Z) (ts : list Z) : list Z :=
   | 10 => with_parse run_state_space (fun x => x) ts
   | 13 => with_parse run_drawing (fun x => x) ts
   | 14 => with_parse run_annotation (fun x => x) ts
+  | 15 => with_parse run_saveload (fun x => x) ts
   | 17 => with_parse run_loaders (fun x => x) ts
   | 18 => run_format ts
   | _ => [(-2)%Z]
